@@ -1567,7 +1567,12 @@ class Engine:
             return h(self, st, recv, args, kwargs, node)
         if m is None:
             return self.unknown_call(f"{cls}.{name}", [recv] + args, kwargs, st, node)
-        if target in self.inline or name in self.inline or "*" in self.inline:
+        is_new = f"{ci.file}::{ci.name}.{name}" in getattr(self.repo, "new_functions", ())
+        if target in self.inline or name in self.inline or "*" in self.inline or is_new:
+            # a method that did not exist on the validated tree (typically extracted from the caller by a refactoring) has no contract of its
+            # own: it is executed as part of its caller
+            if is_new:
+                self.abstracted.discard("")
             outs = self.run_function(m, st, [recv] + args, kwargs, cls=ci.name)
             return self.join_call(outs, st)
         return self.unknown_call(target, [recv] + args, kwargs, st, node, summary=self.frame_summary(target, m, args, kwargs))
@@ -1577,6 +1582,11 @@ class Engine:
         if h is not None:
             return h(self, st, args, kwargs, node)
         short = name.split(".")[-1]
+        if "." not in name and short in self.repo.func_by_name and short not in self.inline and \
+                any(f"{rel_}::{short}" in getattr(self.repo, "new_functions", ()) for rel_, _ in self.repo.func_by_name[short]):
+            rel, fn = self.repo.func_by_name[short][0]        # new module-level helper: executed as part of its caller
+            outs = self.run_function(fn, st, args, kwargs, cls=None)
+            return self.join_call(outs, st)
         if short in self.inline and short in self.repo.func_by_name:
             rel, fn = self.repo.func_by_name[short][0]
             outs = self.run_function(fn, st, args, kwargs, cls=None)
